@@ -19,6 +19,7 @@ package c16
 
 import (
 	"fmt"
+	"os"
 	"sort"
 	"strconv"
 	"strings"
@@ -172,6 +173,47 @@ func overlapRoots(opts []opt) []opt {
 	}
 	return roots
 }
+
+// indexLeak recognises the class of finding D46 (the repair of D21 is
+// incomplete while a `**` option is present): some exact option has an index
+// segment at a position where the field-policy tree holds nothing but list
+// entries, i.e. every exact option sharing the segments before it continues
+// with an index as well. Such an index pattern still matches lists further
+// down, at any depth, so no value of such a case can be asserted.
+func indexLeak(opts []opt) bool {
+	wild := false
+	for _, o := range opts {
+		wild = wild || o.wild
+	}
+	if !wild {
+		return false
+	}
+	for _, p := range opts {
+		if p.wild {
+			continue
+		}
+	next:
+		for j, s := range p.segs {
+			if !isIndex(s) {
+				continue
+			}
+			for _, q := range opts {
+				if q.wild || !isPrefix(p.segs[:j], q.segs) {
+					continue
+				}
+				if len(q.segs) == j || !isIndex(q.segs[j]) {
+					continue next
+				}
+			}
+			return true
+		}
+	}
+	return false
+}
+
+// d46Open: the class of D46 is constructed away from the value assertions
+// while the finding is open. C16_FORCE_D46 forces that for development runs.
+func d46Open() bool { return runlog.IsOpen("D46") || os.Getenv("C16_FORCE_D46") != "" }
 
 func overlaps(roots []opt, p []string) bool {
 	for _, r := range roots {
@@ -378,6 +420,11 @@ func runCase(c Case, r *runlog.R) error {
 	got, err := libMerge(goA, goB, c.Src == 1, libOpts(c.Global, c.Fields))
 	if err != nil {
 		return fmt.Errorf("%v\n %s", err, c.describe())
+	}
+	if indexLeak(opts) && d46Open() {
+		r.Excluded("D46")
+		r.Class("index pattern next to a ** option (D46, unasserted)")
+		return nil
 	}
 	glob, err := libMerge(goA, goB, c.Src == 1, libOpts(c.Global, nil))
 	if err != nil {
@@ -872,6 +919,6 @@ var subScope = runlog.Register(&runlog.Sub[Case]{
 	Run:  runCase,
 })
 
-func TestFieldScope(t *testing.T) { subScope.Check(t, 100000, 10000000) }
+func TestFieldScope(t *testing.T) { subScope.Check(t, 300000, 10000000) }
 
 func TestReplay(t *testing.T) { runlog.ReplayMain(t) }
